@@ -301,7 +301,14 @@ def _collect(E, c, fi, outs, results, short, altdesc, env0, entry_oid, timeout_m
         if altdesc:
             oid_full = oid
         r = solve.check_valid(pc, goal, timeout_ms, seed=seed, facts=st.facts)
-        size = sum(len(str(x)) for x in pc[-3:]) if False else 0
+        _dbg = os.environ.get('VERIF_DUMP_OBL')
+        if _dbg and _dbg in oid and r['status'] != 'unsat':
+            # developer aid: the query as SMT-LIB
+            _s = z3.Solver()
+            _s.add(*pc)
+            _s.add(z3.Not(goal) if not isinstance(goal, bool) else z3.BoolVal(not goal))
+            _dn = os.environ.get('VERIF_DUMP_DIR', '/root/verif_scratch')
+            open(os.path.join(_dn, 'obl_%s_%d.smt2' % (oid[-60:].replace('/', '_'), len(results))), 'w').write(_s.to_smt2())
         if r['status'] == 'unsat':
             results.append(Result(oid, kind, clause, 'discharged', r['backend'], r['seconds'], path=altdesc))
         elif r['status'] == 'sat':
